@@ -4,15 +4,18 @@ Cases are reversible chains given by a symmetric integer count matrix C: the mod
 exact rationals T = C_ij / rowsum_i, pi = rowsum_i / total and on the exact forward committor
 (solved here in Fractions, *verified* in Coq by Flux.hyps_b), the real code on the nearest doubles.
 """
-import math
+import math, os, sys
 from fractions import Fraction as F
 import numpy as np
-from core import cz, cn, cq, clist, copt
+from core import cz, cn, cq, clist, copt, VERIF
+sys.path.insert(0, os.path.join(VERIF, "translator"))
+import tr_flux
 
 PID = "C08"
 PROPS_FILE = "Props/C08.v"
-MODEL_TARGETS = ["Model/Flux.vo"]
-CASE_HEADER = ("From Coq Require Import List Arith QArith Bool.\nFrom EV Require Import Flux.\n"
+MODEL_TARGETS = ["Model/Flux.vo", "Gen/FluxGen.vo"]
+GEN_FILES = ["Gen/FluxGen.v"]
+CASE_HEADER = ("From Coq Require Import List Arith QArith Bool.\nFrom EV Require Import Flux FluxBase FluxGen.\n"
                "Import ListNotations.\nOpen Scope Q_scope.\n")
 RULE = ("reversible chains from random connected symmetric integer count matrices (n = 2..6 quick, ..8 thorough; "
         "entries 0..6 with many zeros, line graphs and dead-end branches so that committors hit 0/1 on intermediate "
@@ -21,8 +24,12 @@ RULE = ("reversible chains from random connected symmetric integer count matrice
         "csr/csc/coo/lil/dok/dia/bsr containers; a malformed stream with a populations vector of the wrong length. "
         "Each case runs the real committors, reactive_fluxes, net_fluxes, reactive_populations; Coq evaluates "
         "Flux.hyps_b (stochastic, detailed balance, committor equations, bounds, set discipline: exact) and compares "
-        "the three model outputs to 1e-9. non-trivial := valid case, n >= 4, non-uniform pi, >= 2 states with 0<q<1")
-TRUSTED = ["modelled not verified: NumPy broadcasting / scipy.sparse multiply, maximum, tolil, transpose as executed",
+        "the three model outputs AND the three definitions regenerated from the current tpt.py (Gen/FluxGen.v, the dense "
+        "or the sparse one according to the container) to 1e-9. non-trivial := valid case, n >= 4, non-uniform pi, >= 2 states with 0<q<1")
+TRUSTED = ["translator/tr_flux.py: statement shapes of tpt.py and the shape typing of NumPy broadcasting / scipy.sparse "
+           ".multiply (M * v[:, None] = row_scale, M * v = col_scale; entry semantics in Base/FluxBase.v, proved equal to "
+           "the model in Proof/FluxGenProofs.v, exercised by the correspondence on every case)",
+           "modelled not verified: NumPy broadcasting / scipy.sparse multiply, maximum, tolil, transpose as executed",
            "forward committor: produced by enspara.tpt.core.committors (property C07); here an input whose defining "
            "equations are checked per case (exactly on the exact solution, to 1e-9 on the code's doubles)",
            "eq_probs eigen-solver when populations are computed (compared with the exact stationary vector to 1e-9)"]
@@ -33,6 +40,10 @@ ASSUMPTIONS = ["transition matrix square, populations vector of the matrix dimen
                "probability vector vanishing on sources and sinks exists; the code returns NaN, the model None)"]
 EXHAUSTIVE = {"thorough": False}
 SHARD = 40
+
+
+def translate(repo):
+    return tr_flux.translate(repo)
 TOL = F(1, 10 ** 9)
 FMTS = ["dense", "csr", "csc", "coo", "lil", "dok", "dia", "bsr"]
 
@@ -418,6 +429,13 @@ def coq_check(c, r):
     netfn = "net_fluxes" if c["fmt"] == "dense" else "net_fluxes_sparse"      # the code's two branches
     parts.append("CaseLib.opt_eqb (CaseLib.qll_close %s) %s (%s T pi q)" % (tol, Ni, netfn))
     parts.append("CaseLib.opt_eqb (CaseLib.ql_close %s) %s (reactive_populations pi q)" % (tol, Ri))
+    if _valid(c):
+        # the definitions regenerated from the current source (unguarded expressions: valid shapes only)
+        kind = "dense" if c["fmt"] == "dense" else "sparse"
+        parts.append("CaseLib.opt_eqb (CaseLib.qll_close %s) %s (Some (gen_reactive_fluxes_%s T pi q))" % (tol, Fi, kind))
+        parts.append("CaseLib.opt_eqb (CaseLib.qll_close %s) %s (Some (gen_net_fluxes_%s T pi q))" % (tol, Ni, kind))
+        if Ri != "(@None (list Q))":
+            parts.append("CaseLib.opt_eqb (CaseLib.ql_close %s) %s (Some (gen_reactive_populations pi q))" % (tol, Ri))
     return "(" + pre + "(" + " && ".join("(%s)" % p for p in parts) + ")%bool)"
 
 
